@@ -26,7 +26,7 @@ RULE = ('DAGs mixing functions (two, three, node) and the class hierarchy Base<-
         'non-matching Buildables. Non-trivial: >=1 match and >=1 non-matching Buildable; distinct = '
         '(DAG sketch, selector, op).')
 RULE_ADDITIONS = (' Added by the rounds of seeded changes (DESIGN 9.7): ' +
-                  'replacement equal to the replaced value; ABC targets with virtual subclasses, registered late as well; .set(p=Tag.new(v)) then a tag edit on one node; a Buildable subclass hiding an argument from the traversal protocol; iteration of tag selections (one value per selected argument, several matching tags on one argument); pointsub containers')
+                  'replacement equal to the replaced value; ABC targets with virtual subclasses, registered late as well; .set(p=Tag.new(v)) then a tag edit on one node; a Buildable subclass hiding an argument from the traversal protocol; iteration of tag selections (one value per selected argument, several matching tags on one argument); pointsub containers; selection by bound classmethods (fresh objects)')
 RULE = RULE + RULE_ADDITIONS
 ASSUMPTIONS = [
     'replace may re-create lists/dicts/tuples on the way (observed, allowed); only Buildables '
